@@ -8,6 +8,8 @@ Markets include options struck below zero and paths below zero (one sign per pat
 (copy.deepcopy before / after use, pickle round trip, state_dict loaded into a newly built hedger) against a hand-unrolled recurrence.
 Default hedge (hedge=None = the derivative's underliers): built-in options and user-defined options with 2-3 registered underliers.
 One-feature hedgers whose module works IN PLACE on its input (see `inplace_section`).
+Features on user-registered price / variance / volatility series with NON-FINITE entries (NaN, +inf, -inf): get(i) == column i of get(None) only, NaN equal to NaN
+(see `nonfinite_section`; real code only).
 """
 from fractions import Fraction as F
 from common import *  # noqa
@@ -532,6 +534,135 @@ def inplace_section(ctx, torch, g, reqs, metas):
                 metas.append(("feat", casem | {"path": p}, "module_output", False, allv[p], [("ok", a_[p][0]) for a_ in atv]))
 
 
+# ---- price / variance / volatility series with non-finite entries --------------------------------------------------------------------
+
+NONFINITE = {"nan": float("nan"), "inf": float("inf"), "-inf": float("-inf")}
+NONFINITE_WHERE = ["first", "inner", "last"]
+# every feature of the first section, a ModuleOutput over several of them and a FeatureList (what Hedger.get_input hands to the model)
+NONFINITE_FEATURES = BASE_FEATURES + ["module_output", "feature_list"]
+NONFINITE_MO_INPUTS = ["moneyness", "time_to_maturity", "volatility", "variance", "max_moneyness", "barrier_up", "barrier_down", "underlier_spot", "spot"]
+OWN_BUFFER = {"HestonStock": "variance", "LocalVolatilityStock": "volatility"}
+
+
+def nonfinite_section(ctx, torch, g):
+    """User-registered price / variance / volatility buffers that contain NON-FINITE entries (a missing quote NaN, +inf, -inf; at the first,
+    an inner or the last step; historical series with holes, a diverged simulation).  The predicate is the first sentence of the property
+    and nothing else: every feature at the single step i == column i of the same feature for all steps (same shape and dtype; NaN compared
+    as equal to NaN, infinities by sign; bitwise otherwise, 8 ulp of the dtype for logarithms / the time to maturity as in the first
+    section) -- NO demand on what the values are, so nothing goes to the model (its `max` keeps the left argument where torch's max /
+    cummax / cummin propagate NaN: only NaN conventions would be compared).  Every step 0..T-1, both orders of evaluation, float64 and float32.
+    Deterministic corpus (every tier, every seed): feature x non-finite value x position; the threshold of a Barrier is the price at step 0
+    of the path with the hole, so the barrier has been touched when the hole comes.  Then random numbers / places of holes."""
+    import math
+    from pfhedge.features import FeatureList, ModuleOutput
+    from pfhedge.features._getter import get_feature
+    corpus = [(name, val, where) for name in NONFINITE_FEATURES for val in NONFINITE for where in NONFINITE_WHERE]
+    prims = ["BrownianStock", "HestonStock", "MertonJumpStock", "LocalVolatilityStock"]
+    n = 250 if ctx.tier == "quick" else 2500
+    for it in range(len(corpus) + n):
+        det = it < len(corpus)
+        if det:
+            name, val, where = corpus[it]
+            primary = (prims[1::2] if name in ("variance", "volatility") else prims)[it % (2 if name in ("variance", "volatility") else 4)]
+            mk = signed_market(g, gen_market(g, T=g.choice([3, 4, 5, 6, 8]), primary=primary))
+        else:
+            name = g.choice(NONFINITE_FEATURES)
+            mk = signed_market(g, gen_market(g))
+        N, T = mk["N"], mk["T"]
+        buffers = ["spot"] + ([OWN_BUFFER[mk["primary"]]] if mk["primary"] in OWN_BUFFER else [])
+        at_ = lambda w: 0 if w == "first" else T - 1 if w == "last" else g.randint(1, max(1, T - 2))   # noqa
+        if det:
+            p = g.randint(0, N - 1)
+            hits = [(b, p if b == "spot" else g.randint(0, N - 1), at_(where), val) for b in buffers]
+            thr = mk["spot"][p][0]
+        else:
+            hits = [(g.choice(buffers), g.randint(0, N - 1), at_(g.choice(NONFINITE_WHERE)), g.choice(sorted(NONFINITE))) for _ in range(g.choice([1, 1, 2, 3]))]
+            thr = g.choice([x for p in mk["spot"] for x in p] + [g.dy(F(1, 2), 4, 3)])
+        dname = g.choice(["float64", "float64", "float32"])
+        dtype = getattr(torch, dname)
+        d, u = build_derivative(torch, mk, dtype)
+        members = None
+        try:
+            if name == "module_output":
+                members = [g.choice(NONFINITE_MO_INPUTS) for _ in range(g.choice([1, 2, 3]))]
+                ms = gen_linear(g, len(members), g.choice([1, 2]))
+                f = ModuleOutput(model_obj(torch, ms, dtype), [feature_obj(torch, n_, mk, thr) for n_ in members]).of(d, None)
+            elif name == "feature_list":
+                members = [g.choice([n_ for n_ in BASE_FEATURES if n_ != "empty"]) for _ in range(g.choice([2, 3]))]
+                f = FeatureList([feature_obj(torch, n_, mk, thr) for n_ in members]).of(d, None)
+            else:
+                f = get_feature(feature_obj(torch, name, mk, thr)).of(d, None)
+        except Exception as e:  # noqa
+            raise InternalError("cannot build feature: " + repr(e))
+        tables = {"spot": mk["spot"], "variance": mk["var"], "volatility": mk["vol"]}
+        tables = {b: [[float(x) for x in r] for r in tables[b]] for b in buffers}
+        for b, p_, s_, v_ in hits:
+            tables[b][p_][s_] = NONFINITE[v_]
+        case = {"non_finite": [list(h) for h in hits], "feature": name, "thr": rat_str(thr), "option": mk["option"], "primary": mk["primary"], "T": T, "N": N,
+                "dtype": dname, "spot": enc_rat(mk["spot"]), "strike": rat_str(mk["strike"]), "dt": rat_str(mk["dt"])}
+        if len(buffers) > 1:
+            case |= {buffers[1]: enc_rat(mk["var"] if buffers[1] == "variance" else mk["vol"])}
+        if members:
+            case |= {"members": members} | ({"module": model_json(ms)} if name == "module_output" else {})
+        if g.chance(0.2):
+            Tm = g.choice([t_ for t_ in (2, 3, 4, 6, 9, 13) if t_ != T])
+            d.maturity = (Tm - 1) * float(mk["dt"])
+            case |= {"maturity": f"{Tm - 1} steps of dt (the series has {T - 1})"}
+        batched_first = g.chance(0.5)
+        case |= {"batched_first": batched_first}
+        with torch.no_grad():
+            for b in buffers:
+                u.register_buffer(b, torch.tensor(tables[b], dtype=dtype))
+            if batched_first:
+                st_all, v_all, mut = call_impl(f.get, None, watch=[("derivative", d)])
+            ats = [call_impl(f.get, i, watch=[("derivative", d)]) for i in range(T)]
+            if not batched_first:
+                st_all, v_all, mut = call_impl(f.get, None, watch=[("derivative", d)])
+        for m_ in [mut] + [a_[2] for a_ in ats]:
+            if m_:
+                ctx.mutated(f"{name}.get on a series with non-finite entries", m_, case)
+        ctx.case(case, nontrivial=True, tag="feature_nonfinite")
+        ctx.traces += 1
+        ctx.stats["non-finite: " + "+".join(sorted({h[3] for h in hits})) + " in " + "+".join(sorted({h[0] for h in hits}))] += 1
+        key = f"feature:{name}:step-vs-all:non-finite-series"
+        what = f"feature {name}" + (f" over {members}" if members else "") + " on a series with non-finite entries: "
+        if st_all != "ok" or any(a_[0] != "ok" for a_ in ats):
+            if st_all != "ok" and all(a_[0] != "ok" for a_ in ats):
+                ctx.stats["non-finite: get(None) and every get(i) raise (nothing to compare)"] += 1
+            else:
+                ctx.fail(what + "one of get(None) / get(i) raises where the other returns a value", case, key=key + ":error",
+                         detail=[str(v_all)[:100]] + [str(a_[1])[:100] for a_ in ats])
+            continue
+        width = v_all.shape[-1]
+        if tuple(v_all.shape) != (N, T, width):
+            ctx.fail(what + f"get(None) has shape {tuple(v_all.shape)}, expected (N,T,F)", case, key=key + ":shape")
+            continue
+        allv = v_all.to(torch.float64).tolist()
+        ulp = 2.0 ** -52 if v_all.dtype == torch.float64 else 2.0 ** -23
+        # tolerance per column of the feature: as in the first section (bitwise; 8 ulp of the dtype for logarithms and the time to maturity)
+        loose = lambda n_: n_ in LOG_FEATURES or n_ == "time_to_maturity"   # noqa
+        tols = [loose(n_) for n_ in members] if name == "feature_list" else [loose(name)] * width
+
+        def same(x, y, tol):
+            if x == y or (math.isnan(x) and math.isnan(y)):
+                return True
+            if math.isnan(x) or math.isnan(y) or math.isinf(x) or math.isinf(y):
+                return False
+            return tol and abs(x - y) <= 8 * ulp * max(abs(x), abs(y))
+        for i, (_, v, _) in enumerate(ats):
+            if tuple(v.shape) != (N, 1, width) or v.dtype != v_all.dtype:
+                ctx.fail(what + f"get(i) has shape {tuple(v.shape)} / {v.dtype}, column i of get(None) has {(N, 1, width)} / {v_all.dtype}", case | {"i": i}, key=key + ":shape")
+                break
+            if name == "empty":
+                continue
+            at = [row[0] for row in v.to(torch.float64).tolist()]
+            col = [row[i] for row in allv]
+            if len(tols) != width or not all(same(x, y, t_) for ra, rc in zip(at, col) for x, y, t_ in zip(ra, rc, tols)):
+                ctx.fail(what + "get(i) differs from column i of get(None) (NaN compared as equal to NaN)", case | {"i": i}, key=key,
+                         detail={"at": at, "col": col, "buffers": tables})
+                break
+
+
 def check(ctx):
     torch, pfhedge = import_impl()
     from pfhedge.nn import Hedger
@@ -1040,6 +1171,8 @@ def check(ctx):
                 metas.append(("hedge", casep | {"copy": copy_kind, "path": p, "mode": "recurrent-copy"}, None, anylog, [[outc3[p][hh][t].item() for hh in range(H)] for t in range(T)], None))
     # ------------------------------------------------------------------ one-feature hedgers with modules working in place
     inplace_section(ctx, torch, g, reqs, metas)
+    # ------------------------------------------------------------------ features on series with non-finite entries (NaN, +inf, -inf)
+    nonfinite_section(ctx, torch, g)
     try:
         outs = ctx.driver(reqs)
     except DriverBroken as e:
@@ -1078,7 +1211,10 @@ def check(ctx):
              "pickle, state_dict into a newly built hedger); the same with hedge=None (built-in options; user-defined options with 2-3 registered underliers: "
              "prev_hedge zeros per underlier, P&L and loss in both modes; deterministic corpus + random); one-feature hedgers (underlier_spot / spot at the underlier's price / "
              "variance / volatility / moneyness / prev_hedge alone) whose module overwrites its input (ReLU / Hardtanh in place, x -= 1, x *= 1/2): hedge all at once, step by step, "
-             "P&L, loss and the market afterwards (deterministic corpus + random); non-trivial = T>=2; distinct = sha1 of canonical case")
+             "P&L, loss and the market afterwards (deterministic corpus + random); every feature, a ModuleOutput and a FeatureList on user-registered price / variance / volatility "
+             "series with NaN / +inf / -inf at the first, an inner or the last step, float64 and float32: get(i) == column i of get(None) with NaN equal to NaN, every step "
+             "(deterministic corpus feature x value x position with the Barrier threshold touched before the hole, + random; real code only); "
+             "non-trivial = T>=2; distinct = sha1 of canonical case")
 
 
 def pad_model(ms, H, pos=None):
